@@ -152,7 +152,7 @@ fn matrix(h: &mut Hist, ctx: &mut Ctx) {
 fn response_insert(h: &mut Hist, ctx: &mut Ctx) -> bool {
     let n = h.rng.range(0, 2) as usize;
     for _ in 0..n {
-        let cand: Vec<crate::hist::Hidden> = h.ann_must.iter().filter(|x| h.model.is_live(&x.parent) && !h.model.is_live(&x.hash)).cloned().collect();
+        let cand: Vec<crate::hist::Hidden> = h.ann_must.iter().filter(|x| x.block.is_some() && h.model.is_live(&x.parent) && !h.model.is_live(&x.hash)).cloned().collect();
         if !cand.is_empty() && h.rng.chance(1, 3) {
             let x = h.rng.pick(&cand).clone();
             if h.deliver(x.block.clone().unwrap(), 1, ctx).is_none() {
@@ -200,7 +200,7 @@ fn response(h: &mut Hist, ctx: &mut Ctx) -> bool {
     let n = h.rng.range(0, 2) as usize;
     for _ in 0..n {
         // sometimes deliver a block that was announced before
-        let cand: Vec<crate::hist::Hidden> = h.ann_must.iter().filter(|x| h.model.is_live(&x.parent) && !h.model.is_live(&x.hash)).cloned().collect();
+        let cand: Vec<crate::hist::Hidden> = h.ann_must.iter().filter(|x| x.block.is_some() && h.model.is_live(&x.parent) && !h.model.is_live(&x.hash)).cloned().collect();
         if !cand.is_empty() && h.rng.chance(1, 2) {
             let x = h.rng.pick(&cand).clone();
             let b = x.block.clone().unwrap();
